@@ -89,6 +89,7 @@ impl DumpOpts {
 }
 
 pub fn make_writer(pid: i32, o: &DumpOpts) -> MinidumpWriter {
+    crate::checks::universal::note_writer(pid, o);
     let blamed = o.blamed.unwrap_or(pid);
     let mut w = MinidumpWriter::new(pid, blamed);
     if let Some(c) = &o.crash {
@@ -161,11 +162,15 @@ impl DumpResult {
 }
 
 pub fn dump_with(w: &mut MinidumpWriter, dest: &mut (impl Write + Seek)) -> DumpResult {
-    match guarded(|| w.dump(dest)) {
+    crate::watch::dump_begin(crate::checks::universal::current_opts_json());
+    let r = match guarded(|| w.dump(dest)) {
         Ok(Ok(b)) => DumpResult::Ok(b),
         Ok(Err(e)) => DumpResult::Err(format!("{e:?}")),
         Err(p) => DumpResult::Panic(p),
-    }
+    };
+    crate::watch::dump_end();
+    crate::checks::universal::after_dump(&r);
+    r
 }
 
 pub fn run_dump(pid: i32, o: &DumpOpts, dest: &mut (impl Write + Seek)) -> DumpResult {
